@@ -72,6 +72,8 @@ def generic_check(ctx, mod):
     t1 = time.time()
     verdicts, obs = run_differential(ctx, mod, cases)
     failing = [c for c in cases if verdicts[c["id"]] == 1]
+    if hasattr(mod, "post_go"):           # generator-side oracle, independent of the Coq model
+        failing += [c for c in mod.post_go(ctx, cases, obs) if c not in failing]
     tie = [c for c in cases if verdicts[c["id"]] == 2]
     for c in failing[:5]:
         cm.violation(ctx, "failing-input", case_payload(c, obs[c["id"]], 1))
